@@ -2,7 +2,8 @@
     Only statements closed by [exact]; proofs live in Valset/SnapshotProofs.v and Evm/CompassProofs.v.
     [run ops = fold_left step ops init] ranges over all histories of staking changes, registrations,
     active-chain changes, snapshot builds and on-chain activations; [crun] adds valset sends. *)
-From Coq Require Import List ZArith Bool Permutation Sorted String.
+From Coq Require Import String.
+From Coq Require Import List ZArith Bool Permutation Sorted.
 From Paloma Require Import Base.Num Valset.Snapshot Valset.SnapshotProofs Evm.Compass Evm.CompassProofs.
 From Paloma Require Gen.C10.
 Import ListNotations.
@@ -129,6 +130,57 @@ Theorem source_shape_as_modelled :
   Gen.C10.set_on_chain_mutations = ["snapshot.Chains = append(snapshot.Chains, chainReferenceID)"]%string.
 Proof. exact source_shape. Qed.
 Print Assumptions source_shape_as_modelled.
+
+(** "has an account on every active remote chain", down to the comparison of the ids (round 2).
+    evm Keeper.MissingChains — the only thing behind ValidatorSupportsAllChains — reports exactly the
+    ACTIVE chains whose reference id does not occur, byte for byte, among the ids it is given, in
+    store order; ids are Go strings ([string] = byte sequence, [=] = Go's [==]): a spelling that differs
+    in letter case, blanks or look-alike letters is another id. *)
+Theorem missing_chains_exact : forall input chains,
+  (forall c, In c (missing_chains input chains) <-> In (c, true) chains /\ ~ In c input) /\
+  missing_chains input chains = filter (fun c => negb (id_in c input)) (map fst (filter snd chains)) /\
+  (missing_chains input chains = [] <-> forall c, In (c, true) chains -> In c input).
+Proof.
+  intros input chains.
+  exact (conj (missing_chains_spec input chains) (conj (missing_chains_order input chains) (missing_nil_iff input chains))).
+Qed.
+Print Assumptions missing_chains_exact.
+
+(** ValidatorSupportsAllChains (= MissingChains of the reference ids of the validator's accounts is
+    empty) holds exactly when every active chain's id EQUALS the reference id of one of its accounts. *)
+Theorem supports_all_chains_exact : forall st a,
+  supports_all st a = true <->
+  forall c, In c (st_active st) -> exists e, In e (infos_of st a) /\ ei_chain e = c.
+Proof. exact supports_all_spec. Qed.
+Print Assumptions supports_all_chains_exact.
+
+(** The source compares ids the way the model does: the set is keyed by the input id as given, the
+    lookup uses the chain's id as stored, inactive chains are skipped, no call in MissingChains or
+    ValidatorSupportsAllChains rewrites a string; the chain type is lower-cased and compared with
+    "evm"; SaveModifiedSnapshot (not an operation of the history model) has no caller outside tests
+    and the other store writers are called from where the model says. *)
+Theorem source_ids_as_modelled :
+  Gen.C10.missing_chains_set_build =
+    ["range inputChainReferenceIDs -> chainReferenceID"; "supportedChainMap[chainReferenceID] = true"]%string /\
+  Gen.C10.missing_chains_walk =
+    ["range allChains -> chain";
+     "chainReferenceID := chain.GetChainReferenceID()";
+     "if !chain.IsActive() { continue }";
+     "if _, found := supportedChainMap[chainReferenceID]; !found { unsuportedChainReferenceIDs = append(unsuportedChainReferenceIDs, chainReferenceID) }"]%string /\
+  Gen.C10.missing_chains_calls =
+    ["append"; "chain.GetChainReferenceID"; "chain.IsActive"; "k.GetAllChainInfos"; "k.Logger";
+     "k.Logger(sdkCtx).Error"; "len"; "make"; "sdk.UnwrapSDKContext"]%string /\
+  Gen.C10.missing_chains_normalising_calls = [] /\
+  Gen.C10.supports_all_input_element = "v.GetChainReferenceID()"%string /\
+  Gen.C10.supports_all_result = "len(missingChains) == 0"%string /\
+  Gen.C10.supports_all_normalising_calls = [] /\
+  Gen.C10.xchain_type = "evm"%string /\
+  Gen.C10.callers_of_SaveModifiedSnapshot = [] /\
+  Gen.C10.callers_of_setSnapshotAsCurrent = ["x/valset/keeper:TriggerSnapshotBuild"]%string /\
+  Gen.C10.callers_of_SetSnapshotOnChain = ["x/evm/keeper:attest"]%string /\
+  Gen.C10.callers_of_TriggerSnapshotBuild = ["x/skyway/keeper:addValidators"; "x/valset:EndBlock"]%string.
+Proof. exact source_ids_shape. Qed.
+Print Assumptions source_ids_as_modelled.
 
 
 (* --- source translation tie (GenFn) --- *)
